@@ -191,7 +191,42 @@ def f_semiring(a):
     return e
 
 
-FUNCS = {"closure": f_closure, "solve": f_solve, "blocks": f_blocks, "semiring": f_semiring, "blocks_order": f_blocks_order}
+def f_chart(a):
+    """Chart algebra (chart.py): +, *, product, trim, sum, normalize, project, filter."""
+    R = SR[a["sr"]]
+    mkc = lambda c: R.chart({k: dec_w(R, w) for k, w in c})
+    enc = lambda ch: [[k, enc_w(R, v)] for k, v in ch.items()]
+    A = mkc(a["a"])
+    fn = a["fn"]
+    e = {"op": "chart", "sr": srmodel(a["sr"]), "fn": fn, "a": a["a"]}
+    if fn in ("add", "mul"):
+        B = mkc(a["b"])
+        e["b"] = a["b"]
+        e["out"] = enc(A + B if fn == "add" else A * B)
+    elif fn == "product":
+        e["ks"] = a["ks"]
+        e["res"] = enc_w(R, A.product(a["ks"]))
+    elif fn == "trim":
+        e["out"] = enc(A.trim())
+    elif fn == "sum":
+        v = A.sum()
+        e["res"] = enc_w(R, v)
+    elif fn == "normalize":
+        e["out"] = enc(A.normalize())
+    elif fn == "project":
+        m = dict(a["map"])
+        e["map"] = a["map"]
+        e["out"] = enc(A.project(lambda k: m[k]))
+    elif fn == "filter":
+        keep = set(a["keep"])
+        e["keep"] = a["keep"]
+        e["out"] = enc(A.filter(lambda k: k in keep))
+    else:
+        raise ValueError(fn)
+    return e
+
+
+FUNCS = {"chart": f_chart, "closure": f_closure, "solve": f_solve, "blocks": f_blocks, "semiring": f_semiring, "blocks_order": f_blocks_order}
 
 
 def event(fn, args, site=None, feat=None, timeout=30):
